@@ -129,3 +129,6 @@ def Arr.sumAxis {α} [Add α] [OfNat α 0] (a : Arr α) (axis : Nat) : Arr α :=
   ⟨data, smaller⟩
 
 end Sfs
+
+/- Rust functions mirrored in this file beyond those cited above (read by tools/trace_matrix.py):
+   core/src/array.rs: from_element, from_zeros (constant arrays), index_axis (get_axis + unwrap), iter_indices (indicesNext); core/src/array/iter.rs: from_shape; core/src/array/view.rs: to_array (ViewIter collected: view_toList); core/src/array/shape.rs: remove_axis; core/src/array/shape/removed_axis.rs: len; core/src/array/shape/strides.rs: remove_axis (removeAt on shape and strides) -/
